@@ -102,7 +102,7 @@ def install(I, B):
 
     reg("new", new)
 
-    def sym_list(I, st, kind="real", name="L"):
+    def sym_list(I, st, kind="real", name="L", mono=False, maxlen=6):
         sort = {"int": z3.IntSort(), "real": z3.RealSort(), "bool": z3.BoolSort()}[kind]
         n = I.fresh("int", name + "_len")
         arr = I.fresh(z3.ArraySort(z3.IntSort(), sort), name)
